@@ -55,6 +55,8 @@ const REFUSE: [&str; 12] = [
 ];
 
 /// Operands that already carry a dimension: refused under a scale operator whatever follows.
+/// Format modifiers that a scale target accepts (a base modifier is refused by design).
+const FMT_MODS: [&str; 6] = ["frac", "sci", "eng", "digits", "digits 20", "digits 0"];
 const DIMMED: [&str; 4] = ["(3 kg)", "3 m", "(5 K)", "(2 °C)"];
 
 pub struct C10 {
@@ -87,6 +89,8 @@ impl C10 {
         fams.add("chains of three conversions", vec![n, 6, 6, 6]);
         fams.add("refusals", vec![REFUSE.len() as u64, s]);
         fams.add("dimensioned operand under <s1>, converted to <s2>", vec![DIMMED.len() as u64, s, s]);
+        // the output-format modifiers in front of a scale target: the value reported is the same
+        fams.add("(x <s1>) -> <modifier> <s2> over the canonical spellings", vec![n, 6, 6, FMT_MODS.len() as u64]);
         C10 { fams, xs, ctx: Lazy::new() }
     }
 }
@@ -113,7 +117,7 @@ impl Space for C10 {
         Meta {
             id: "C10",
             level: "exploration",
-            rule: "rational x (boundary set: 0, +-1, 32, 100, -273.15, -459.67, -500, 1/3, -22/7, a 21-digit fraction, 1e20, ...; thorough adds the grid p/q, |p|<=40, q in {1,2,3,7,10,97}) x all 26 spellings of the six scales: `x <s>` against hard-coded textbook affine maps; `(x <s1>) -> <s2>` for all 26x26 ordered spelling pairs (36 scale pairs, incl. same-scale round trips); chains of three conversions over all 6^3 scale triples; 12 refusal shapes x 26 spellings (dimensioned operand, scale inside a compound target, trailing text after a scale target, base modifier, non-temperature source); 4 dimensioned operands under every spelling converted to every spelling (26x26, incl. the same scale). Non-trivial = all; distinct by query text".into(),
+            rule: "rational x (boundary set: 0, +-1, 32, 100, -273.15, -459.67, -500, 1/3, -22/7, a 21-digit fraction, 1e20, ...; thorough adds the grid p/q, |p|<=40, q in {1,2,3,7,10,97}) x all 26 spellings of the six scales: `x <s>` against hard-coded textbook affine maps; `(x <s1>) -> <s2>` for all 26x26 ordered spelling pairs (36 scale pairs, incl. same-scale round trips); chains of three conversions over all 6^3 scale triples; 12 refusal shapes x 26 spellings (dimensioned operand, scale inside a compound target, trailing text after a scale target, base modifier, non-temperature source); 4 dimensioned operands under every spelling converted to every spelling (26x26, incl. the same scale); every x and ordered scale pair again under the format modifiers frac / sci / eng / digits / digits 20 / digits 0 in front of the target. Non-trivial = all; distinct by query text".into(),
             assumptions: vec!["textbook constants: 273.15, 459.67, 5/9, 5/4, 40/21 & 7.5, 373.15 & 2/3, 100/33".into()],
             exhaustive: true,
             extra: json!({"families": self.fams.summary(), "spellings": SPELL.iter().map(|s| s.0).collect::<Vec<_>>(), "refusal_shapes": REFUSE}),
@@ -129,6 +133,7 @@ impl Space for C10 {
             1 => format!("({} {}) -> {}", self.xs[d[0] as usize].0, SPELL[d[1] as usize].0, SPELL[d[2] as usize].0),
             2 => format!("{} {} -> {} -> {} (chained)", self.xs[d[0] as usize].0, CANON[d[1] as usize], CANON[d[2] as usize], CANON[d[3] as usize]),
             4 => format!("{} {} -> {}", DIMMED[d[0] as usize], SPELL[d[1] as usize].0, SPELL[d[2] as usize].0),
+            5 => format!("({} {}) -> {} {}", self.xs[d[0] as usize].0, CANON[d[1] as usize], FMT_MODS[d[3] as usize], CANON[d[2] as usize]),
             _ => REFUSE[d[0] as usize].replace("{s}", SPELL[d[1] as usize].0),
         }
     }
@@ -202,6 +207,16 @@ impl Space for C10 {
                     if y != from_kelvin(c, &to_kelvin(a, x)) {
                         out = out.viol("scale conversion disagrees with the textbook formula", format!("{} direct {}->{}: {}", q, CANON[a], CANON[c], y));
                     }
+                }
+            }
+            5 => {
+                let x = &self.xs[d[0] as usize].1;
+                let want = from_kelvin(d[2] as usize, &to_kelvin(d[1] as usize, x));
+                out.outcome = "scale conversion with a format modifier".into();
+                match conv(ctx, &q) {
+                    Ok(g) if g == want => {}
+                    Ok(g) => out = out.viol("scale conversion with a format modifier disagrees with the textbook formula", format!("`{}` -> {}, textbook {}", q, g, want)),
+                    Err(e) => out = out.viol("scale conversion with a format modifier failed", format!("`{}`: {}", q, e)),
                 }
             }
             4 => match eval_q(ctx, &q) {
